@@ -165,6 +165,10 @@ pub fn scenario(t: &mut Tape, max_players: u64) -> ValveScn {
         for (k, want_rules) in [(2usize, true), (1usize, false)] {
             if t.draw(CFG, 12) == 0 {
                 if let Some(c) = st.adopt_pool_entry(t, want_rules) {
+                    // small compressed answers also travel in a single split packet
+                    if c.bz2.len() < 1300 && t.draw(CFG, 3) == 0 {
+                        enc[k].frags = 1;
+                    }
                     compressed[k] = Some(c);
                     enc[k].split = Split::SourceCompressed;
                 }
